@@ -2,6 +2,11 @@
 
 package builder
 
+// C13 (determinism): every function below belongs to it - its effect clause (no random, clock or environment
+// effect beyond the declared ones), frame, call preconditions and loop invariants are proved for every iteration
+// order of every map it ranges over.
+//@ fileprops C13
+
 // Contracts for the deductive verifier in /verif (govc).  This file contains comments only;
 // it is compiled only with -tags verif and declares nothing.
 
@@ -31,6 +36,7 @@ package builder
 //@          box(bmodel.TypecastEntry{inner: n, typ: t, expr: bmodel.castExpr(pkgScope(b.pkg.Types), b.imports, t)}), nil))))
 //@
 //@ func (*assignmentBuilder).castNode(b, lhsType, rhs) (c, ok)
+//@   props C09
 //@   reveal wfNode, exprType, returnsError, parentOf, objNameOf
 //@   requires wfB(b) && lhsType != nil && bmodel.wfNode(rhs)
 //@   use T10(), T6(lhsType)
@@ -53,6 +59,7 @@ package builder
 //@          nil)))
 //@
 //@ func (*assignmentBuilder).sliceToSlice(b, lhs, rhs) (a, err)
+//@   props C09
 //@   reveal wfNode, exprType, returnsError, parentOf, objNameOf
 //@   requires bmodel.wfNode(lhs) && bmodel.wfNode(rhs)
 //@   ensures {C16,C01} err == nil && a == sliceChoice(b, lhs, rhs)
@@ -178,7 +185,10 @@ package builder
 //@ spec templReady(o option.Options) bool = forall(j, 0, len(o.TemplatedNameMapper), len(o.TemplatedNameMapper[j].src.paths[0]) >= 1)
 //@ spec argsReady(args []bmodel.Node) bool = forall(i, 0, len(args), bmodel.wfNode(args[i]) && !bmodel.returnsError(args[i]))
 //@
+// (C19 ":map/:conv paths always compare case-sensitively": the anchors below demand pattern == path(lhs), plain
+// string equality, whatever the case rule)
 //@ func (*assignmentBuilder).matchStructFieldAndStruct(b, lhs, rhs, additionalArgs) (a, err)
+//@   props C09, C19
 //@   reveal wfNode, exprType, returnsError, parentOf, objNameOf
 //@   requires wfB(b) && convsReady(b.opts) && templReady(b.opts) && bmodel.wfNode(lhs) && bmodel.wfNode(rhs) && plainPath(rhs) && argsReady(additionalArgs)
 //@   effects log, warn
@@ -186,10 +196,10 @@ package builder
 //@   ensures {C06,C05} option.shouldSkip(old(b.opts), path(lhs)) ==> a == box(gmodel.SkipField{LHS: bmodel.assignExpr(lhs)}) && err == nil
 //@   ensures {C05,C06} err == nil && option.skipInv(b.opts) && okResult(a, bmodel.assignExpr(lhs))
 //@   ensures {C14} kept(option.pmInv, *option.PatternMatcher)
-//@   atcall createWithConverter: {C06} !option.shouldSkip(b.opts, path(lhs)) && converter.m.dst.pattern == path(lhs) && noConv(b.opts, path(lhs), $k)
-//@   atcall createWithMapper: {C06} !option.shouldSkip(b.opts, path(lhs)) && noConv(b.opts, path(lhs), len(b.opts.Converters)) && mapper.dst.pattern == path(lhs) && noMap(b.opts, path(lhs), $k)
-//@   atcall createWithTemplatedMapper: {C06} !option.shouldSkip(b.opts, path(lhs)) && noConv(b.opts, path(lhs), len(b.opts.Converters)) && noMap(b.opts, path(lhs), len(b.opts.NameMapper)) && mapper.dst.pattern == path(lhs) && noTMap(b.opts, path(lhs), $k)
-//@   atcall Literal: {C06} !option.shouldSkip(b.opts, path(lhs)) && noConv(b.opts, path(lhs), len(b.opts.Converters)) && noMap(b.opts, path(lhs), len(b.opts.NameMapper)) && noTMap(b.opts, path(lhs), len(b.opts.TemplatedNameMapper)) && setter.dst.pattern == path(lhs) && noLit(b.opts, path(lhs), $k)
+//@   atcall createWithConverter: {C06,C19} !option.shouldSkip(b.opts, path(lhs)) && converter.m.dst.pattern == path(lhs) && noConv(b.opts, path(lhs), $k)
+//@   atcall createWithMapper: {C06,C19} !option.shouldSkip(b.opts, path(lhs)) && noConv(b.opts, path(lhs), len(b.opts.Converters)) && mapper.dst.pattern == path(lhs) && noMap(b.opts, path(lhs), $k)
+//@   atcall createWithTemplatedMapper: {C06,C19} !option.shouldSkip(b.opts, path(lhs)) && noConv(b.opts, path(lhs), len(b.opts.Converters)) && noMap(b.opts, path(lhs), len(b.opts.NameMapper)) && mapper.dst.pattern == path(lhs) && noTMap(b.opts, path(lhs), $k)
+//@   atcall Literal: {C06,C19} !option.shouldSkip(b.opts, path(lhs)) && noConv(b.opts, path(lhs), len(b.opts.Converters)) && noMap(b.opts, path(lhs), len(b.opts.NameMapper)) && noTMap(b.opts, path(lhs), len(b.opts.TemplatedNameMapper)) && setter.dst.pattern == path(lhs) && noLit(b.opts, path(lhs), $k)
 //@   atcall structFieldAndStructGettersAndFields: {C06,C04} !option.shouldSkip(b.opts, path(lhs)) && noConv(b.opts, path(lhs), len(b.opts.Converters)) && noMap(b.opts, path(lhs), len(b.opts.NameMapper)) && noTMap(b.opts, path(lhs), len(b.opts.TemplatedNameMapper)) && noLit(b.opts, path(lhs), len(b.opts.Literals))
 //@   loop 1 invariant $k <= len(b.opts.Converters) && noConv(b.opts, path(lhs), $k)
 //@   loop 2 invariant $k <= len(b.opts.NameMapper) && noMap(b.opts, path(lhs), $k)
@@ -215,16 +225,21 @@ package builder
 //@   atcall sliceToSlice: {C04,C16} accessible(b, bmodel.exprType(rhsStruct), bmodel.objNameOf(rhs)) && cmpName(opts, bmodel.objNameOf(lhs), bmodel.objNameOf(rhs))
 //@   atcall castNode: {C04} accessible(b, bmodel.exprType(rhsStruct), bmodel.objNameOf(rhs)) && cmpName(opts, bmodel.objNameOf(lhs), bmodel.objNameOf(rhs))
 //@   atcall structToStruct: {C04,C02} accessible(b, bmodel.exprType(rhsStruct), bmodel.objNameOf(rhs)) && cmpName(opts, bmodel.objNameOf(lhs), bmodel.objNameOf(rhs))
-//@   atcall structToStruct: {C02} isStructT(bmodel.exprType(lhs)) && isStructT(bmodel.exprType(rhs))
+// (also the guard under which the builder recurses: C14 - termination itself is not proved, see DESIGN)
+//@   atcall structToStruct: {C02,C14} isStructT(bmodel.exprType(lhs)) && isStructT(bmodel.exprType(rhs))
 //@
 //@ func (*assignmentBuilder).structFieldAndStructGettersAndFields(b, lhs, rhsStruct) (a, err)
+//@   props C09, C07
 //@   use T0(derefT(bmodel.exprType(rhsStruct))), T0(underlying(derefT(bmodel.exprType(rhsStruct))))
 //@   reveal wfNode, exprType, returnsError, objNameOf, assignExpr
 //@   requires readyB(b) && bmodel.wfNode(lhs) && bmodel.wfNode(rhsStruct) && plainPath(rhsStruct)
 //@   use T10()
 //@   effects log, warn
 //@   assigns all(option.PatternMatcher.re), all(option.PatternMatcher.exactCase)
-//@   ensures {C04,C05} err == nil && okResult(a, bmodel.assignExpr(lhs)) && option.skipInv(b.opts)
+// (C07: a nested block must be a gmodel.NestStruct value - that is what covers() admits besides a line on the field
+// itself - because the generator and returnsError recognise nests by exactly that dynamic type when they place
+// the error checks)
+//@   ensures {C04,C05,C07} err == nil && okResult(a, bmodel.assignExpr(lhs)) && option.skipInv(b.opts)
 //@   ensures {C14} kept(option.pmInv, *option.PatternMatcher)
 //@   ensures {C04} b.opts.Rule == gmodel.MatchRuleNone ==> isNoMatch(a, bmodel.assignExpr(lhs))
 //@   ensures {C05} isNoMatch(a, bmodel.assignExpr(lhs)) ==> $warn.n >= old($warn.n) + 2 && $warn.sink[$warn.n-1] == logger.elogger
@@ -246,6 +261,7 @@ package builder
 //@ spec accBefore(b *assignmentBuilder, lhs bmodel.Node, k int) int = cond(k <= 0, 0, accBefore(b, lhs, k-1) + cond(accField(b, lhs, k-1), 1, 0))
 //@
 //@ func (*assignmentBuilder).structToStruct(b, lhsStruct, rhsStruct, additionalArgs) (r, err)
+//@   props C09
 //@   use T0(derefT(bmodel.exprType(lhsStruct))), T0(underlying(derefT(bmodel.exprType(lhsStruct))))
 //@   reveal wfNode, exprType, objNameOf, assignExpr
 //@   requires readyB(b) && bmodel.wfNode(lhsStruct) && bmodel.wfNode(rhsStruct) && plainPath(rhsStruct) && argsReady(additionalArgs)
@@ -271,6 +287,7 @@ package builder
 //@     m.Func != nil && pkgOfObj(refOf(m.Func)) != nil && m.DstSide != nil && m.SrcSide != nil && forall(i, 0, len(m.AdditionalArgs), m.AdditionalArgs[i] != nil)
 //@
 //@ func (*FunctionBuilder).buildManipulator(p, m, src, dst, additionalArgs, retError) (r, err)
+//@   props C09
 //@   nilable m
 //@   requires wfFB(p) && (m != nil ==> wfManip(m)) && forall(i, 0, len(additionalArgs), additionalArgs[i] != nil)
 //@   effects log, warn
@@ -314,6 +331,7 @@ package builder
 //@   ensures {C14} kept(option.pmInv, *option.PatternMatcher)
 //@
 //@ func (*assignmentBuilder).build(b, lhs, rhs, additionalArgs) (r, err)
+//@   props C09
 //@   requires readyB(b) && len(b.additionalArgVars) == len(additionalArgs) && forall(i, 0, len(additionalArgs), additionalArgs[i] != nil)
 //@   reveal wfNode, exprType, returnsError, parentOf
 //@   effects log, warn
@@ -332,6 +350,7 @@ package builder
 //@ spec argVar(p *FunctionBuilder, m *bmodel.MethodEntry, i int) gmodel.Var = mkVar(p, bmodel.mParam(m, i+1), "arg" + itoa(i))
 //@
 //@ func (*FunctionBuilder).CreateFunction(p, m) (fn, err)
+//@   props C09
 //@   requires wfFB(p)
 //@   requires bmodel.wfMethod(m) && bmodel.mNPar(m) > 0 && bmodel.mNRes(m) > 0
 //@   requires option.skipInv(m.Opts)
@@ -364,6 +383,7 @@ package builder
 //@   loop 2 invariant forall(i, 0, $k, additionalArgsVars[i] == argVar(p, m, i))
 //@
 //@ func (*FunctionBuilder).CreateFunctions(p, methods) (r, err)
+//@   props C09
 //@   requires wfFB(p) && forall(i, 0, len(methods), entryOK(methods[i]))
 //@   effects log, warn
 //@   assigns all(option.PatternMatcher.re), all(option.PatternMatcher.exactCase)
